@@ -24,6 +24,7 @@ A *spec* is a JSON-able dict (all keys optional except `events`/`widths`):
   stext        [[key, value], ...] or None -- supplemental TEXT segment
   stext_raw    str or None -- supplemental TEXT segment written verbatim (may be ill-formed)
   stext_after  bool -- supplemental TEXT segment placed behind DATA instead of in front of it
+  stext_first  bool -- supplemental TEXT segment placed in front of the primary TEXT segment
   analysis     [[key, value], ...] or None
   analysis_in  'header' | 'text'
   mode         $MODE value
@@ -132,13 +133,19 @@ def build(spec):
     an_bytes = encode_pairs(analysis, delim, leading=spec.get('analysis_leading', True)).encode('latin-1') \
         if analysis is not None else b''
 
+    st_first = bool(spec.get('stext_first')) and stext is not None and not st_after   # supplemental TEXT in front of TEXT
+
     def layout(text_len):
         pos = HEADER_LEN + pad[0]
+        if st_first:
+            pos += len(st_bytes) + pad[0]
         text_begin = pos
         text_end = pos + text_len - 1
         pos = text_end + 1 + pad[1]
         st_begin = st_end = 0
-        if stext is not None and not st_after:
+        if st_first:
+            st_begin, st_end = HEADER_LEN + pad[0], HEADER_LEN + pad[0] + len(st_bytes) - 1
+        elif stext is not None and not st_after:
             st_begin, st_end = pos, pos + len(st_bytes) - 1
             pos = st_end + 1 + pad[1]
         data_begin = pos
@@ -189,9 +196,14 @@ def build(spec):
     buf = bytearray()
     buf += header
     buf += _padding(pad[0], rnd, delim)
+    if st_first:
+        assert len(buf) == L['st_begin']
+        buf += st_bytes
+        buf += _padding(pad[0], rnd, delim)
+    assert len(buf) == L['text_begin']
     buf += text
     buf += _padding(pad[1], rnd, delim)
-    if stext is not None and not st_after:
+    if stext is not None and not st_after and not st_first:
         buf += st_bytes
         buf += _padding(pad[1], rnd, delim)
     assert len(buf) == L['data_begin']
